@@ -14,6 +14,8 @@ SimNext ==
     \/ \E B \in SUBSET pool, o \in Orders : B # {} /\ AddNodes(B) /\ hist' = Append(hist, [op |-> "nodes", n |-> Cardinality(B) * 3, order |-> o])
     \/ (stage = "mpt" /\ have # {} /\ AddNodes(have) /\ hist' = Append(hist, [op |-> "dupnodes", n |-> 0, order |-> "asc"]))
     \/ (stage = "mpt" /\ AddNodes({Junk}) /\ hist' = Append(hist, [op |-> "junknode", n |-> 0, order |-> "asc"]))
+    \* one message carrying wanted nodes AND something that is not a node: the wanted ones count, the rest is ignored
+    \/ \E B \in SUBSET pool, o \in Orders : B # {} /\ AddNodes(B \cup {Junk}) /\ hist' = Append(hist, [op |-> "mixednodes", n |-> Cardinality(B) * 2, order |-> o])
     \/ (stage = "headers" /\ UNCHANGED vars /\ hist' = Append(hist, [op |-> "junkheader", n |-> 0, order |-> "asc"]))
     \/ (stage = "blocks" /\ UNCHANGED vars /\ hist' = Append(hist, [op |-> "junkblock", n |-> 0, order |-> "asc"]))
     \/ AddBlock /\ hist' = Append(hist, [op |-> "blocks", n |-> 1, order |-> "asc"])
